@@ -1,30 +1,73 @@
-"""C01: Results always reflect the object's current state (cache coherence)  (see DESIGN.md section 5)"""
-from contracts import kernels as K
-from contracts.common import TRUSTED_ENGINE, ASSUME_COMMON, has_bounded, vacuity_canary, bounds_canary
+"""C01: results always reflect the object's current state (cache coherence)  - DESIGN.md section 5, C01"""
+from contracts.common import TRUSTED_ENGINE, ASSUME_COMMON, has_bounded
+from pvc import build
 
 PROP = "C01"
-LEVEL = "other"
+LEVEL = "proof"
 HAS_BOUNDED = has_bounded(PROP)
-CLAIMED = False
-NA_REASON = "check not yet registered (framework under construction)"
-LEVEL_TEXT = "TODO"
-LEVEL_NOTE = "TODO"
-TECHNIQUE = "contract-based deductive verification (VCs from source, z3/cvc5) + bounded stand-in"
-TRUSTED_BASE = TRUSTED_ENGINE
-EXPLANATION = ('TODO')
-ASSUMPTIONS = ASSUME_COMMON + []
-NOT_DECIDED = []
+CLAIMED = True
+TECHNIQUE = ("contract-based deductive verification: frame conditions (reads*/writes* per cached method and mutator, "
+             "MRO-resolved cache keys), counter-guard obligations in LIA (z3); bounded stale-hit replay as stand-in")
+LEVEL_TEXT = ("Per concrete class (all 28 classes derived from Cached) and per cached method: the lru_cache key covers every "
+              "mutable field the method transitively reads (FRAME); every public mutator strictly increases the guard counter "
+              "of each field it may write on every path, also when a constructor is re-run on a live object (GUARD, MONO; z3); "
+              "the MRO-resolved __cache_state__ covers every Cached base (MRO); derived fields are rewritten with their sources "
+              "(REPINV).  With the paper argument M1 (induction over the history) these per-function facts give 'no stale value "
+              "after any history' for all histories and inputs.  The bounded layer replays mutator/query histories on the real code.")
+LEVEL_NOTE = ("Trusted: Python attribute semantics restricted to self.<name> (no __getattr__ hooks - checked), lru_cache key "
+              "semantics, the guard/derived-field tables of the sidecar (pvc/frame_obl.py: GUARD_OF, DERIVED, IDEMPOTENT), "
+              "meta-argument M1 on paper; direct assignment of public attributes by users is outside the mutator alphabet.")
+TRUSTED_BASE = TRUSTED_ENGINE + [
+    "frame analyser pvc/frame.py: CPython ast of src/pyunicorn/**/*.py re-read on every run; C3 MRO re-implemented; "
+    "dynamic dispatch resolved on the concrete class; getattr(self, f-string) over-approximated by name pattern; "
+    "constant (None/bool/str) arguments propagated one call deep per context",
+    "sidecar tables GUARD_OF / DERIVED / IDEMPOTENT / OUTPUT_ONLY (field -> guard counter, source -> derived fields)",
+    "meta-argument M1 (cache soundness by induction over the history) kept on paper",
+]
+EXPLANATION = ("FRAME/GUARD/MONO/MRO/REPINV obligations are generated from the current Python sources for every class derived "
+               "from Cached and discharged by set inclusion over interprocedural path summaries (FRAME, MRO, REPINV) or by z3 over "
+               "counter transformers (GUARD, MONO).  The bounded block is the history replay of bounded/c01.py.")
+ASSUMPTIONS = ASSUME_COMMON + [
+    "cached methods are deterministic functions of (arguments, fields read) - purity is property C06",
+    "fields are only accessed as self.<name>; users do not assign public attributes directly",
+    "Grid/GeoGrid/EventSeries declare themselves immutable (__cache_state__ == ()): accepted because no public mutator writes "
+    "their fields (this is what FRAME checks for them: zero mutable reads)",
+    "silence_level only influences what is printed (OUTPUT_ONLY)",
+]
+NOT_DECIDED = ["thread/process safety of the lru_caches", "behaviour under direct assignment of public attributes"]
 
 
 def jobs(tier):
-    return K.jobs_for(PROP)
+    return []
 
 
-def canaries(tier):
-    js = jobs(tier)
-    out = []
-    for j in js[:3]:
-        out.append(vacuity_canary(j))
-        if any("shape(" in r or "extent(" in r for r in j.contract.requires):
-            out.append(bounds_canary(j))
+def structural(tier):
+    from pvc.frame_obl import frame_obligations, repinv_obligations
+    out, prog, _t = frame_obligations(build.src())
+    out += repinv_obligations(prog)
+    # structural side condition of the trusted base: no attribute hooks anywhere
+    import ast
+    hooks = []
+    for path, tree in prog.files.items():
+        for n in ast.walk(tree):
+            if isinstance(n, ast.FunctionDef) and n.name in ("__getattr__", "__setattr__", "__getattribute__", "__delattr__"):
+                hooks.append(f"{path}:{n.lineno}")
+    out.append({"id": "C01/NOHOOKS", "kind": "NOHOOKS", "func": "*", "text": "no __getattr__/__setattr__ hooks in src/pyunicorn",
+                "status": "refuted" if hooks else "proved", "backend": "ast scan", "time": 0.0, "model": None,
+                "detail": str(hooks), "line": None})
     return out
+
+
+def extra_canaries(tier):
+    """Must-fail variants: with a corrupted guard table the generator has to refute GUARD and FRAME obligations."""
+    import pvc.frame_obl as fo
+    saved = fo.GUARD_OF["Network"]["sp_A"]
+    fo.GUARD_OF["Network"]["sp_A"] = "_mut_nw"
+    try:
+        out, _prog, _t = fo.frame_obligations(build.src(), classes={"Network"})
+    finally:
+        fo.GUARD_OF["Network"]["sp_A"] = saved
+    bad_guard = any(o["kind"] == "GUARD" and o["status"] == "refuted" for o in out)
+    bad_frame = any(o["kind"] == "FRAME" and o["status"] == "refuted" for o in out)
+    return [("frame-canary: wrong guard for sp_A must refute a GUARD obligation", bad_guard),
+            ("frame-canary: wrong guard for sp_A must refute a FRAME obligation", bad_frame)]
